@@ -508,7 +508,15 @@ fn run_script(script: &Value) -> Result<Value, String> {
     let mut env = Env::new(&xp);
     let mut obs = vec![];
     let mut done_steps = vec![];
+    let mut truncated = String::new();
     for st in &steps {
+        // A generated user edit presupposes the disk the MODEL expects.  If the real disk
+        // does not admit it (jj left something else behind), the script ends here: the
+        // judge has the observation of the jj step that made the difference.
+        if is_edit(st) && !edit_applicable(&env, st) {
+            truncated = format!("edit not applicable on the real disk: {st}");
+            break;
+        }
         let r = exec_caught(&mut env, st);
         done_steps.push(st.clone());
         let no_stats = json!({"added":0,"updated":0,"removed":0,"skipped":0});
@@ -534,7 +542,7 @@ fn run_script(script: &Value) -> Result<Value, String> {
             }
         }
     }
-    Ok(json!({"op":"wc","xp":xp,"steps":done_steps,"obs":obs}))
+    Ok(json!({"op":"wc","xp":xp,"steps":done_steps,"obs":obs,"truncated":truncated}))
 }
 
 fn paths_json() -> Value {
